@@ -53,12 +53,14 @@ pub fn block(sc: &Scenario, i: usize, valid: bool, n: usize) -> Vec<i32> {
     let mut v = Vec::with_capacity(n * sc.ch);
     for t in 0..n {
         for c in 0..sc.ch {
-            let x: i64 = match i % 4 {
+            let x: i64 = match (i + 2) % 4 {
                 0 => (lcg(&mut st) as i64 % (2 * max + 1)) - max,
                 1 => (i as i64 + 1) * if c % 2 == 0 { 1 } else { -1 },
-                2 => ((t as i64 * 37 + c as i64 * 11) % (max / 2 + 1)) - max / 4,
+                // resonant content (an LPC subframe wins: the encoder's window cache, LPC estimator and
+                // Rice scratch all influence the bytes), a different frequency per block
+                2 => (((t as f64) * (1.1 + 0.17 * i as f64) + c as f64).sin() * max as f64 * 0.6) as i64 + (lcg(&mut st) % 5) as i64 - 2,
                 _ => {
-                    let base = (lcg(&mut st) as i64 % (max / 2 + 1)) - max / 4;
+                    let base = (((t as f64) * (0.8 + 0.13 * i as f64)).sin() * max as f64 * 0.4) as i64 + (lcg(&mut st) % 9) as i64 - 4;
                     if c % 2 == 0 {
                         base
                     } else {
@@ -186,6 +188,25 @@ pub fn outcome_of(r: &RunResult, frames: usize) -> Outcome {
 pub fn reference_st(sc: &Scenario) -> RunResult {
     let cfg = make_cfg(sc, false);
     classify(flacenc::encode_with_fixed_block_size(&cfg, ScriptSource::new(sc), sc.bs))
+}
+
+/// Number of (LPC, fixed) subframes in the single-thread reference (non-vacuity of the scratch usage).
+pub fn predicted_subframes(sc: &Scenario) -> (usize, usize) {
+    let cfg = make_cfg(sc, false);
+    let mut n = (0, 0);
+    if let Ok(s) = flacenc::encode_with_fixed_block_size(&cfg, ScriptSource::new(sc), sc.bs) {
+        for i in 0..s.frame_count() {
+            let f = s.frame(i).unwrap();
+            for c in 0..f.subframe_count() {
+                match f.subframe(c) {
+                    Some(flacenc::component::SubFrame::Lpc(_)) => n.0 += 1,
+                    Some(flacenc::component::SubFrame::FixedLpc(_)) => n.1 += 1,
+                    _ => {}
+                }
+            }
+        }
+    }
+    n
 }
 
 /// Frame-by-frame assembly through the public frame-level entry point (fault-free scripts only).
